@@ -109,27 +109,29 @@ _CM_ASSUME = ['ACovAnisoList, CovAniso (2 structures), Db, CovCalcMode are raw s
               'variable ranks are concrete ({2,0} / {1,2}); sample ranks symbolic in [0,3]; neighbourhood rank vectors arbitrary ints (forwarded only)',
               'EOperator items get their enum values in the solver build (static constructors are not run)',
               'covariance code is integer valued: every sum and product is exact in IEEE as well']
-K('C04.a2.sym', property='C04', engine='symex', harness='C04/covmat.cpp', entries=['k_sym'], tus=_CM_TUS,
-  defines={'all': {'VF_NV': 1, 'VF_NE': 1}},
-  bounds={'quick': '0..2 active variables, 0..2 valid samples per variable independently (heterotopy), one more sample per unset flag; 2 basic structures; mode null or all-active with arbitrary unitary flag; '
-                   'measurement-error column present / absent per variable, arbitrary integer variances in [-50,50]'},
-  timeout_ms={'quick': 60000, 'thorough': 600000}, validate={'quick': 10, 'thorough': 30}, validate_doubles='int',
+_SYM_SC = ['000', '100', '110', '120', '200', '201', '202', '210', '211', '212', '220', '221', '222']
+_RECT_SC = ['0200', '2000'] + ['%d%d%s' % (_a, _b, _c) for _a in (1, 2) for _b in (1, 2) for _c in ('00', '02', '11', '12', '20', '21', '22')]
+K('C04.a2.sym', property='C04', engine='symex', harness='C04/covmat.cpp', entries=['k_sym_m%d_%s' % (_m, _s) for _m in (0, 1, 4) for _s in _SYM_SC], tus=_CM_TUS,
+  bounds={'quick': '0..2 active variables, 0..2 valid samples per variable independently (heterotopy), one more sample per unset flag; 2 basic structures; mode null, all-active, or all-active and unitary; '
+                   'measurement-error column present / absent per variable, arbitrary integer variances in [-50,50]; one entry per (mode kind, number of variables, numbers of samples)'},
+  timeout_ms={'quick': 60000, 'thorough': 600000}, validate={'quick': 4, 'thorough': 20}, validate_doubles='int',
   what='ACovAnisoList::evalCovMatrixSymmetricOptim (+ CovAniso::evalOptimInPlace, ACovAnisoList::optimizationSetTargetByIndex) against ACov::evalCovMatrixSymmetric (+ ACovAnisoList::eval, '
        'CovAniso::eval, getSill), both followed by ACov::_updateCovMatrixSymmetricVerr, on the same inputs: same request Db::getMultipleRanksActive(ivars, nbgh, useSel, useVerr), same shape, '
        'same cells: the variance of measurement error lands on the same diagonal cells',
   out='covariance values themselves (projection of the points, Tensor products, _evalCorFromH); what getMultipleRanksActive selects (C05); non-stationary models; mode selecting structures (C04.a2.sel)',
   assumptions=_CM_ASSUME, stubs=_CM_STUBS)
-K('C04.a2.rect', property='C04', engine='symex', harness='C04/covmat.cpp', entries=['k_rect'], tus=_CM_TUS,
-  defines={'all': {'VF_NV': 2, 'VF_NE': 2}},
-  bounds={'quick': '0..2 active variables on each side, 0..2 valid samples (second variable one less on side 1, first variable one less on side 2), one more per unset flag; db2 null or a second Db; '
-                   '2 basic structures; mode null or all-active with arbitrary unitary flag'},
-  timeout_ms={'quick': 60000, 'thorough': 600000}, validate={'quick': 6, 'thorough': 30}, validate_doubles='int',
-  what='ACovAnisoList::evalCovMatrixOptim (+ CovAniso::evalOptimInPlace, ACov::optimizationSetTarget, ACovAnisoList::_optimizationSetTarget) against ACov::evalCovMatrix (+ ACovAnisoList::eval, '
-       'CovAniso::eval, getSill) on the same inputs: same requests Db::getMultipleRanksActive on both sides (Db, variables, neighbourhood ranks, flags), same shape, same cells',
-  out='as C04.a2.sym', assumptions=_CM_ASSUME, stubs=_CM_STUBS)
-K('C04.a2.sel', property='C04', engine='symex', harness='C04/covmat.cpp', entries=['k_sym_sel', 'k_rect_sel'], tus=_CM_TUS,
-  defines={'all': {'VF_NV': 2, 'VF_NE': 1}},
-  bounds={'quick': 'as C04.a2.sym / C04.a2.rect with at most 1 valid sample per variable; mode = CovCalcMode with allActiveCov false and the active list {0} or {1} (setActiveCovListFromOne)'},
-  timeout_ms={'quick': 60000, 'thorough': 600000}, validate={'quick': 6, 'thorough': 30}, validate_doubles='int',
+_RECT_Q = ['0200', '2000', '1111', '1211', '1222', '2112', '2200', '2202', '2220', '2212', '2221', '2222']
+for _kid, _sc, _tiers, _val in (('C04.a2.rect', _RECT_Q, ('quick', 'thorough'), 2), ('C04.a2.rect.full', _RECT_SC, ('thorough',), 4)):
+    K(_kid, property='C04', engine='symex', harness='C04/covmat.cpp', entries=['k_rect_m%d_%s' % (_m, _s) for _m in (0, 1, 4) for _s in _sc], tus=_CM_TUS, tiers=_tiers,
+      bounds={'quick': '0..2 active variables on each side, 0..2 valid samples (second variable one less on side 1, first variable one less on side 2), one more per unset flag; db2 null or a second Db; '
+                       '2 basic structures; mode null, all-active, or all-active and unitary; one entry per (mode kind, numbers of variables, numbers of samples): %d of the 30 combinations' % len(_sc)},
+      timeout_ms={'quick': 60000, 'thorough': 600000}, validate={'quick': _val, 'thorough': _val}, validate_doubles='int',
+      what='ACovAnisoList::evalCovMatrixOptim (+ CovAniso::evalOptimInPlace, ACov::optimizationSetTarget, ACovAnisoList::_optimizationSetTarget) against ACov::evalCovMatrix (+ ACovAnisoList::eval, '
+           'CovAniso::eval, getSill) on the same inputs: same requests Db::getMultipleRanksActive on both sides (Db, variables, neighbourhood ranks, flags), same shape, same cells',
+      out='as C04.a2.sym', assumptions=_CM_ASSUME, stubs=_CM_STUBS)
+K('C04.a2.sel', property='C04', engine='symex', harness='C04/covmat.cpp',
+  entries=['k_sym_m%d_%s' % (_m, _s) for _m in (2, 3) for _s in ('110', '211')] + ['k_rect_m%d_%s' % (_m, _s) for _m in (2, 3) for _s in ('1111', '2212')], tus=_CM_TUS,
+  bounds={'quick': 'four scenarios of C04.a2.sym / C04.a2.rect; mode = CovCalcMode with allActiveCov false and the active list {0} or {1} (what setActiveCovListFromOne builds)'},
+  timeout_ms={'quick': 60000, 'thorough': 600000}, validate={'quick': 4, 'thorough': 20}, validate_doubles='int',
   what='same pairs of functions under a CovCalcMode that selects one basic structure: the optimised matrix must be the sum over the selected structures only, as ACovAnisoList::eval computes',
   out='as C04.a2.sym', assumptions=_CM_ASSUME, stubs=_CM_STUBS)
